@@ -1722,7 +1722,6 @@ pub fn gen_recovery(t: &mut Tape) -> GSpec {
         stmt_alts.push(user(v));
         any_err = true;
     }
-    let e_alts = vec![user(vec![SymKind::N(3)]), user(vec![SymKind::N(2), tm(t_plus), SymKind::N(3)])];
     let mut t_alts = vec![user(vec![tm(t_atom)]), user(vec![tm(t_lp), SymKind::N(2), tm(t_rp)])];
     if t.chance(130) || !any_err {
         let mut v = vec![tm(t_lp)];
@@ -1730,6 +1729,14 @@ pub fn gen_recovery(t: &mut Tape) -> GSpec {
         v.push(tm(t_rp));
         t_alts.push(user(v));
     }
+    // right recursion: the state after a complete `T` both shifts the operator and
+    // reduces `E = T` (also on the error pseudo-terminal when `E !` exists), so the
+    // continuations of that state differ from those of the state reached by the reduction
+    let e_alts = if t.chance(100) {
+        vec![user(vec![SymKind::N(3)]), user(vec![SymKind::N(3), tm(t_plus), SymKind::N(2)])]
+    } else {
+        vec![user(vec![SymKind::N(3)]), user(vec![SymKind::N(2), tm(t_plus), SymKind::N(3)])]
+    };
     spec.nts.push(nt("S", true, s_alts));
     spec.nts.push(nt("Stmt", false, stmt_alts));
     spec.nts.push(nt("E", false, e_alts));
